@@ -62,6 +62,23 @@ Theorem C09_dict_refines_assoc :
     holds_frames lower alpha s xs (model_frames lower alpha s xs) = true.
 Proof. exact model_refines. Qed.
 
+(** The same in plain terms: after any history, list(d.items()) of every paragraph object is the
+    content of the corresponding paragraph of the reference run (keys as first spelled, in order,
+    with their values); and when every assigned value passes validate_input, the reference run
+    is [Spec.s_run] itself. *)
+Theorem C09_run_refines :
+  forall lower s xs,
+    start_ok s = true -> hist_ok lower (s_start lower s) xs = true ->
+    let w := run lower (snd (start_world lower s)) xs in
+    map (obj_items lower w) (w_objs w)
+    = map (fun d => Ok d) (fold_left (spec_next lower) xs (s_start lower s)).
+Proof. exact run_refines. Qed.
+
+Theorem C09_reference_run_is_s_run :
+  forall lower xs W,
+    forallb sets_valid xs = true -> fold_left (spec_next lower) xs W = s_run lower W xs.
+Proof. exact spec_run_s_run. Qed.
+
 (** 3. failed_op_unchanged.  After any history, an operation that raises (KeyError on a missing
        key, ValueError on re-ordering relative to itself or on an invalid value, ...) leaves every
        paragraph of the world unchanged. *)
@@ -152,6 +169,8 @@ Print Assumptions C09_dll_wf_preserved.
 Print Assumptions C09_step_refines.
 Print Assumptions C09_wf_observable.
 Print Assumptions C09_dict_refines_assoc.
+Print Assumptions C09_run_refines.
+Print Assumptions C09_reference_run_is_s_run.
 Print Assumptions C09_failed_op_unchanged.
 Print Assumptions C09_agree_implies_holds.
 Print Assumptions C09_parse_dump_identity.
